@@ -247,7 +247,9 @@ def check_c02(prop, tier):
             start += len(ch)
         events = parallel(_c02_job, jobs)
         # tiers with slivers (on an exact grid): the written file must still be a partition of the file's span
-        sv = [v for v in c04_random_vectors(sz["c04rand"] // 3, common.SEED + 1) if v["blanks"]]
+        # (a file span shorter than the threshold cannot be both a partition and free of sub-threshold intervals: left out)
+        sv = [v for v in c04_random_vectors(sz["c04rand"] // 3, common.SEED + 1)
+              if v["blanks"] and (not v["useT"] or ((v["hi"] if v["hi"] is not None else v["N"]) - (v["lo"] or 0)) >= v["T2"])]
         events += parallel(_c04_job, [(ch, 0, work) for ch in chunks(sv, common.NCPU)])
         events = renumber(events)
         for ev in events:
